@@ -43,12 +43,51 @@ def canon(expr, real=True):
     return " + ".join(terms)
 
 
+def canon_plain(expr, targets, real=True):
+    """contracted indices renamed to the lowest available names, no merging
+    of terms (orbital energy denominators are not handled by simplify); the
+    target indices are declared explicitly (they also occur in denominators)"""
+    e = Expr(expr, real=real, target_idx=targets).expand().substitute_contracted()
+    return " + ".join(sorted(str(t) for t in e.terms))
+
+
 out = {}
 out["E2"] = canon(gs.energy(2))
 out["t2_1"] = canon(gs.mp_amplitude(1, "pphh", "ijab"))
 out["S2"] = canon(gs.overlap(2))
 m = SecularMatrix(IntermediateStates(gs, "pp"))
 out["M1"] = canon(m.isr_matrix_block(1, "ph,ph", "ia,jb"))
+# requests whose explicitly named target indices belong to the name
+# generations the generic index pool is taken from (k3, c3, ...): an earlier
+# history must not make them reappear as summation indices
+def targets_once(expr, targets):
+    """every target index occurs exactly once among the tensors of every term
+    (orbital energy denominators aside): none of them is summed over"""
+    tg = get_symbols(targets)
+    for t in Expr(expr, real=True, target_idx=targets).expand().terms:
+        cnt = {s: 0 for s in tg}
+        for o in t.objects:
+            if o.type_as_str == "polynom" or o.exponent < 0:
+                continue
+            for s in o.idx:
+                if s in cnt:
+                    cnt[s] += 1
+        if any(c != 1 for c in cnt.values()):
+            return False
+    return True
+
+
+# the name generation the generic indices are currently taken from (found
+# through the public interface): names of this and the next generation are
+# partly handed out already
+cur = Indices().get_generic_indices(occ=1)[("occ", "")][0].name
+gen = int(cur[1:]) if cur[1:] else 0
+out["targets_not_summed"] = True
+for k, nm in enumerate(("k1c1", "k3c3", "m2e2", f"n{gen}g{gen}", f"m{gen + 1}f{gen + 1}", f"k{gen + 2}c{gen + 2}")):
+    res = gs.amplitude(2, "ph", nm)
+    out[f"t2s_{k}"] = canon_plain(res, nm).replace(nm[:len(nm) // 2], "K").replace(nm[len(nm) // 2:], "C")
+    out["targets_not_summed"] = out["targets_not_summed"] and targets_once(res, nm)
+out["M1_named"] = canon(m.isr_matrix_block(1, "ph,ph", "k2c2,l4d4"))
 i, i0, a, b = get_symbols("i"), get_symbols("i0"), get_symbols("a"), get_symbols("b")
 x = AntiSymmetricTensor("x", (i[0], i0[0]), (a[0], b[0]))
 out["tie"] = str(x)
